@@ -192,11 +192,12 @@ Definition lib_is_square (a : shape) : res bool :=
   let ms := py_slice_from a (-2) in
   bind (py_idx ms 0) (fun r => bind (py_idx ms 1) (fun c => Ok (r =? c))).
 
-(* x.mT on a shape (torch refuses fewer than 2 dimensions) *)
+(* x.mT on a shape (torch refuses 1-D tensors; a 0-d tensor is returned unchanged) *)
 Definition shape_mT (a : shape) : res shape :=
   match rev a with
   | n :: m :: r => Ok (rev r ++ [n; m])
-  | _ => Raise
+  | [] => Ok []
+  | [_] => Raise
   end.
 
 (* utils/getitem.py::_compute_getitem_size, the `isinstance(idx, int)` branch (hand copy of the generated term) *)
@@ -293,6 +294,17 @@ Definition lib_cat_check_args (ops : list shape) (d : Z) : res unit :=
       fold_left (fun acc t => bind acc (fun _ =>
         if negb (length t =? length rep) then Raise
         else bind (py_del t d) (fun tn => if shape_eqb tn rep_noncat then Ok tt else Raise))) ops (Ok tt))
+  end.
+
+(* CatLinearOperator.__init__( *linear_ops, dim): `if dim >= 0: dim = dim - ndims` BEFORE the checked constructor runs;
+   a dim >= ndims therefore becomes a valid non-negative dim (pinned behaviour: no range check) *)
+Definition lib_cat_init (ops : list shape) (d : Z) : res unit :=
+  match ops with
+  | [] => Raise
+  | rep :: _ =>
+      let ndims := Z.of_nat (length rep) in
+      let d' := (if 0 <=? d then d - ndims else d)%Z in
+      lib_cat_check_args ops d'
   end.
 
 (* ===================================================================================== *)
